@@ -405,6 +405,7 @@ func (h *c14Hist) blipCheck(proto string) bool {
 func TestVerif_C14_Blip(t *testing.T) {
 	run := vlib.Start(t, "C14", "blip")
 	defer run.Finish()
+	base.SetUpTestLogging(t, base.LevelWarn, base.KeyNone) // request-level logging of ~100 000 reads only slows the run down
 	nHist := run.N(40, 600)
 	steps := 8
 	e := c14NewEnv(t, run)
